@@ -34,7 +34,7 @@ def _attr_cases(ctx, stride):
             continue
         if c03.known(rec, "rejects-valid") or c03.known(rec, "accepts-invalid") or c03.known(rec, "decoded"):
             continue
-        out.append({"origin": "attributes", "xsds": [c03.schema_xsd(rec["d0"], rec["dT"], rec["w"], i % 4),
+        out.append({"origin": "attributes", "xsds": [c03.schema_xsd(rec["d0"], rec["dT"], rec["w"], i % 8),
                                                      c03.XSD_A],
                     "xml": c03.instance_xml(rec["inst"]), "spec_valid": rec["valid"],
                     "about": f"attrs {rec['inst']}"})
@@ -71,6 +71,22 @@ def _ident_cases(ctx, stride):
     return out
 
 
+def _validator_cases(ctx, stride):
+    """Single- and double-fault documents of spec/Validator.tla (two faults: the ORDER of errors matters)."""
+    from harness import vdoc
+    out = []
+    for double, st in (("FALSE", stride), ("TRUE", stride * 12)):
+        r = ctx.tlc("Validator", "Validator.cfg", constants={"MaxItems": 2, "Double": double},
+                    tag=f"pool-validator-{double}", workers=4)
+        for i, rec in enumerate(r.json_records()):
+            if i % st:
+                continue
+            out.append({"origin": "validator2" if double == "TRUE" else "validator", "xsds": [vdoc.XSD],
+                        "xml": vdoc.render(rec["nodes"]), "spec_valid": rec["valid"],
+                        "about": f"validator {rec['fault']} {rec['fault2']}"})
+    return out
+
+
 def build_pool(ctx, scale=1):
     """-> list of cases; `scale` > 1 thins the pool out."""
     parts = ctx.parallel([
@@ -78,7 +94,8 @@ def build_pool(ctx, scale=1):
         lambda: _attr_cases(ctx, 211 * scale),
         lambda: _deriv_cases(ctx, 257 * scale),
         lambda: _ident_cases(ctx, 17 * scale),
-    ], width=4)
+        lambda: _validator_cases(ctx, 23 * scale),
+    ], width=5)
     pool = [c for p in parts for c in p]
     for i, c in enumerate(pool):
         c["id"] = i
